@@ -29,7 +29,7 @@ class C01(Prop):
     components = {"real": ["baize.multipart.MultipartDecoder", "baize.multipart_helper.parse_stream/parse_async_stream", "baize.wsgi.Request.form", "baize.asgi.Request.form",
                            "baize.datastructures.UploadFile/FormData", "tempfile.SpooledTemporaryFile"],
                   "stub": ["chunk arrival (iterator / wsgi.input / ASGI receive)", "event loop clock/selector, executor inlined at a seeded instant"]}
-    hard_probes = ("cut_inside_delimiter", "byte_at_a_time", "empty_chunk", "upload_rolled_to_disk", "large_file", "executor_latency", "transient_read_error")
+    hard_probes = ("cut_inside_delimiter", "byte_at_a_time", "empty_chunk", "upload_rolled_to_disk", "large_file", "executor_latency", "transient_read_error", "earlier_request_abandoned_mid_body", "form_read_while_handling_an_exception")
     quick_runs = 60000
     thorough_runs = 1200000
     batch = 250
@@ -84,7 +84,17 @@ class C01(Prop):
         if reuse:
             ctx.fault("producer_reuses_its_buffer")
         results = {}
+        in_handler = ctx.sched.draw(5) == 0
+        if in_handler:
+            ctx.probe("form_read_while_handling_an_exception")
+        body_first = ctx.sched.draw(5) == 0
+        if body_first:
+            ctx.probe("body_read_before_form")
         try:
+            if len(body) > 4 and ctx.sched.draw(5) == 0:
+                # history: requests abandoned in the middle of the same well-formed body, then the healthy one
+                ctx.fault("earlier_request_abandoned_mid_body")
+                feed.abandoned_requests(ctx, form["boundary"], ct, body, 1 + ctx.sched.draw(len(body) - 1))
             for surf in feed.SURFACES:
                 try:
                     if surf == "decoder":
@@ -94,9 +104,9 @@ class C01(Prop):
                     elif surf == "parse_async_stream":
                         got = feed.run_parse_async_stream(ctx, form["boundary"], pieces, delays, post=feed.items_of_async)
                     elif surf == "wsgi_form":
-                        got, _ = feed.run_wsgi_form(ctx, ct, pieces)
+                        got, _ = feed.run_wsgi_form(ctx, ct, pieces, in_handler=in_handler, body_first=body_first)
                     else:
-                        got, _ = feed.run_asgi_form(ctx, ct, pieces, delays)
+                        got, _ = feed.run_asgi_form(ctx, ct, pieces, delays, in_handler=in_handler, body_first=body_first)
                 except (SimDeadlock, SimTimeLimit, SimStepLimit) as e:
                     ctx.violate("C01|%s|hang|%s" % (surf, type(e).__name__), "%s; chunking %s" % (e, mode))
                     continue
